@@ -2,6 +2,8 @@ package main
 
 import (
 	"fmt"
+	"go/token"
+	"go/types"
 	"strings"
 
 	"golang.org/x/tools/go/ssa"
@@ -146,16 +148,30 @@ func runC11(c *Ctx) {
 		var gb *ssa.Function
 		if mc, ok := st.Val.(*ssa.MakeClosure); ok {
 			gb = mc.Fn.(*ssa.Function)
-			for i, fv := range gb.FreeVars {
-				if fv.Name() == "body" {
-					bodyCell, _ = mc.Bindings[i].(*ssa.Alloc)
+			if strings.HasSuffix(gb.Name(), "$bound") {
+				// a method value (the literal became a method of a helper type)
+				if obj, isFn := gb.Object().(*types.Func); isFn {
+					if m := p.SSA.FuncValue(obj); m != nil && m.Blocks != nil {
+						gb = m
+					}
 				}
 			}
-			if bodyCell == nil {
-				for _, b := range mc.Bindings {
-					if al, ok := b.(*ssa.Alloc); ok && typeStr(al.Type()) == "*io.Reader" {
-						bodyCell = al
+			// the body variable: the *io.Reader cell of buildHTTP the override reads and writes
+			for _, in := range instrs(gb) {
+				var addr ssa.Value
+				switch x := in.(type) {
+				case *ssa.UnOp:
+					if x.Op == token.MUL {
+						addr = x.X
 					}
+				case *ssa.Store:
+					addr = x.Addr
+				}
+				if addr == nil {
+					continue
+				}
+				if cell := cellOf(addr); cell != nil && cell.Parent() == f && typeStr(cell.Type()) == "*io.Reader" {
+					bodyCell = cell
 				}
 			}
 		}
@@ -194,18 +210,14 @@ func runC11(c *Ctx) {
 				a := copyCalls[0].Common().Args
 				okCopy = vFieldLoadO(clientReqT, "buf")(a[0]) && func() bool {
 					ad, ok := derefLoad(a[1])
-					if !ok {
-						return false
-					}
-					fv, isFV := ad.(*ssa.FreeVar)
-					return isFV && freeVarCell(fv) == bodyCell
+					return ok && cellOf(ad) == bodyCell
 				}()
 			}
 			c.obF("R11.2", gb, "first-call-copies-body-into-buffer", okCopy, "the first GetBody call copies the streaming body into the request's buffer", "")
 			var rebinds []ssa.Instruction
 			for _, in := range instrs(gb) {
 				if s2, ok := in.(*ssa.Store); ok {
-					if fv, isFV := s2.Addr.(*ssa.FreeVar); isFV && freeVarCell(fv) == bodyCell {
+					if cellOf(s2.Addr) == bodyCell {
 						okV := vFieldLoadO(clientReqT, "buf")(s2.Val)
 						c.obI("R11.2", s2, "rebinds-body-to-buffer", okV, "the body variable is re-bound to the buffer whose bytes are shown", "")
 						rebinds = append(rebinds, s2)
@@ -230,17 +242,20 @@ func runC11(c *Ctx) {
 						if !ok {
 							return false
 						}
-						fv, isFV := ad.(*ssa.FreeVar)
-						return isFV && typeStr(fv.Type()) == "*bool"
+						if fv, isFV := ad.(*ssa.FreeVar); isFV {
+							return typeStr(fv.Type()) == "*bool"
+						}
+						// the flag as a field of the helper type the literal was turned into
+						if fa, isFA := ad.(*ssa.FieldAddr); isFA {
+							n, _ := structOf(fa.X.Type())
+							return n != nil && isNewType(n) && typeStr(fa.Type()) == "*bool"
+						}
+						return false
 					}, true)
 					// nothing to copy / nowhere to copy to: serving the buffer reads no stream either
 					noStream := anyFact(factNil(func(v ssa.Value) bool {
 						ad, ok := derefLoad(v)
-						if !ok {
-							return false
-						}
-						fv, isFV := ad.(*ssa.FreeVar)
-						return isFV && freeVarCell(fv) == bodyCell
+						return ok && cellOf(ad) == bodyCell
 					}, true), factNil(vFieldLoadO(clientReqT, "buf"), true))
 					c.obI("R11.2", r, "later-calls-serve-buffer", guardedBy(r, nil, anyFact(copied, noStream)), "later calls serve the buffer without reading the stream again", "")
 				}
@@ -256,7 +271,7 @@ func runC11(c *Ctx) {
 							okE = false
 							for _, in := range instrs(gb) {
 								if s2, ok := in.(*ssa.Store); ok && s2.Val == ev {
-									if fv, isFV := s2.Addr.(*ssa.FreeVar); isFV && fv.Name() == "copyErr" {
+									if cell := cellOf(s2.Addr); cell != nil && cell.Parent() == f && typeStr(cell.Type()) == "*error" {
 										okE = true
 									}
 								}
@@ -282,7 +297,20 @@ func runC11(c *Ctx) {
 							return false
 						}
 						al, ok := ad.(*ssa.Alloc)
-						return ok && al.Comment == "copyErr"
+						if !ok || typeStr(al.Type()) != "*error" {
+							return false
+						}
+						// the error variable the override records copy/close failures into
+						for _, s2 := range storesToCell(al) {
+							root := s2.Parent()
+							for root.Parent() != nil {
+								root = root.Parent()
+							}
+							if root == gb || s2.Parent() == gb {
+								return true
+							}
+						}
+						return false
 					}
 					c.obI("R11.2", r, "copy-error-preferred", guardedBy(r, au, factNil(isCopyErr, true)), "a copy/close error is returned in preference to the auth error", "")
 				}
